@@ -781,6 +781,7 @@ int main(int argc, char** argv) {
     static char outbuf[1 << 16];
     setvbuf(stdout, outbuf, _IOFBF, sizeof outbuf);
     verif_install_death_flush();
+    verif_snapshot_option(argc, argv);
     while (read_line(stdin)) {
         if (g_ntok == 0) { printf("\n"); continue; }
         const char* op = g_tok[0];
